@@ -53,7 +53,7 @@ func c12Check(p batchParams, out *batchObs) func(res *vrt.Result) *explore.Findi
 			for j, a := range as {
 				// sent to the region owning the key (the executor answers NSRE otherwise, which is
 				// legitimate only for a scripted 'not serving' outcome)
-				if a.Misrouted() && !strings.Contains(p.scripts[i], "N") && p.event != "droptable" {
+				if a.Misrouted() && !strings.Contains(p.scripts[i], "N") && p.event != "droptable" && !(p.pre == "merge" && j == 0) {
 					return &explore.Finding{Class: "call-sent-to-wrong-region-or-server", Msg: fmt.Sprintf("call %d attempt %d refused as not serving%s", i, j, show())}
 				}
 				if j > 0 {
@@ -229,6 +229,20 @@ func c12Units(thorough bool) []*explore.Unit {
 				units = append(units, &explore.Unit{Name: p.String(), Bound: 0, Opt: vrt.Options{MaxSteps: 60000},
 					Body: batchBody(p, out), Check: c12Check(p, out), Sig: batchSig(out)})
 			}
+		}
+	}
+	// the two regions are merged after the client has located them: calls that went to
+	// different connections in the first round meet in one region in the second
+	for _, layout := range []string{"spread", "coloc"} {
+		for _, keys := range [][]string{{"a", "x", "b"}, {"x", "a", "y"}, {"a", "x", "b", "y"}, {"x", "y", "a", "z", "b"}} {
+			p := batchParams{layout: layout, keys: keys, ownCtx: -1, pre: "merge"}
+			for i := range keys {
+				p.kinds = append(p.kinds, []string{"put", "inc", "get"}[i%3])
+				p.scripts = append(p.scripts, "")
+			}
+			out := &batchObs{}
+			units = append(units, &explore.Unit{Name: p.String(), Bound: 0, Opt: vrt.Options{MaxSteps: 60000},
+				Body: batchBody(p, out), Check: c12Check(p, out), Sig: batchSig(out)})
 		}
 	}
 	// cancellation / Close at every scheduling step of the batch (see batchStepUnits)
